@@ -53,7 +53,7 @@ class StreamMetric(State):
     n: int = 0
 
 
-FEATURES = ["plain", "scope", "record", "spawn", "nested", "missing-item"]
+FEATURES = ["plain", "scope", "record", "spawn", "nested", "missing-item", "spawn-blocked", "record-cleanup"]
 PLACES = ["same", "other-scope", "outside", "other-task"]
 
 
@@ -70,6 +70,8 @@ def programs(tier: str):
                                 modes.append(["aclose", j + 1])
                                 modes.append(["cancel", j + 1])
                         for mode in modes:
+                            if feature == "spawn-blocked" and (mode[0] in ("full", "unstarted") or k == 0):
+                                continue
                             yield {
                                 "k": k,
                                 "end": end,
@@ -127,9 +129,11 @@ def execute(program, ch: Chooser) -> Result:  # noqa: C901, PLR0912, PLR0915
     outcome_box: dict = {}
     completions: dict[str, int] = {}
     metrics_box: dict = {}
+    records_box: dict = {}
     spawned: list = []
     gen_err = GenErr("gen")
     cleanup: list = []
+    blocked_ends: list = []
 
     def gen_probe(where: str) -> None:
         inside.append([where, _state_token(tags)])
@@ -160,6 +164,17 @@ def execute(program, ch: Chooser) -> Result:  # noqa: C901, PLR0912, PLR0915
                   async for x in ctx.stream(inner_source):
                       inside.append(["nested-item", x])
                   yield i
+              elif feature == "spawn-blocked":
+
+                  async def blocked():
+                      try:
+                          await loop.create_future()  # never resolved
+                      except asyncio.CancelledError:
+                          blocked_ends.append("cancelled")
+                          raise
+
+                  spawned.append(ctx.spawn(blocked))
+                  yield i
               elif feature == "missing-item" and i == 0:
                   yield MISSING  # a legitimate item that happens to be the MISSING constant
               else:
@@ -170,6 +185,8 @@ def execute(program, ch: Chooser) -> Result:  # noqa: C901, PLR0912, PLR0915
               raise gen_err
       finally:
           cleanup.append(len(inside))
+          if feature == "record-cleanup":
+              ctx.record(StreamMetric(n=99))  # recorded by the generator's clean-up code
 
     def fp(where: str) -> None:
         consumer_fp.append([where, _state_token(tags), _log_token()])
@@ -226,6 +243,9 @@ def execute(program, ch: Chooser) -> Result:  # noqa: C901, PLR0912, PLR0915
         def record(m):
             completions[name] = completions.get(name, 0) + 1
             metrics_box[name] = m
+            own = m.read(StreamMetric)
+            merged = [x for x in m.metrics(merge=lambda cur, got_: got_) if isinstance(x, StreamMetric)]
+            records_box[name] = {"own": None if own is None else own.n, "merged": [x.n for x in merged]}
 
         return record
 
@@ -344,6 +364,17 @@ def execute(program, ch: Chooser) -> Result:  # noqa: C901, PLR0912, PLR0915
         for name, m in metrics_box.items():
             if not m.is_completed and mode[0] != "unstarted":
                 viols.append(viol("d-stream-scope-completes", f"not-completed/{mode[0]}/{placement}", True, False, scope=name))
+        # tasks the generator spawned into the stream's scope do not outlive the closed stream
+        if feature == "spawn-blocked" and finished:
+            alive = [i for i, t in enumerate(spawned) if not t.done()]
+            if alive:
+                viols.append(viol("d-stream-scope-completes", f"spawned-task-outlives-closed-stream/{mode[0]}", "cancelled with the stream's scope", f"{len(alive)} still running"))
+        # a record made by the generator (also by its clean-up code) lands in the stream's own
+        # scope: the creating scope sees it in its merged view, not as its own value
+        if feature == "record-cleanup" and created == "in-scope" and mode[0] != "unstarted" and "creator" in records_box:
+            rb = records_box["creator"]
+            if rb["own"] is not None or 99 not in rb["merged"]:
+                viols.append(viol("b-creation-context", f"cleanup-record-outside-stream-scope/{mode[0]}", {"own": None, "merged": [99]}, rb))
         # (e) nothing reaches the loop's exception handler
         if exc_log:
             viols.append(viol("e-loop-clean", f"{mode[0]}/{placement}", "empty", exc_log[:2]))
